@@ -29,7 +29,7 @@ def handleWatch : List String → Option String
   | ["watch.elcsv", csv, cur, he, hist] => do
     let h ← (if hist == "none" then some none else (int? hist).map some)
     pure (elStr (elCsv (← nat? csv) (← int? cur) (← bool? he) h))
-  | ["watch.lndconf", safety, ce, cur, ch] => do
+  | ["watch.lndconf", safety, ce, cur, ch, _hint] => do   -- the height hint does not enter the decision
     pure (match lndOnConf (← nat? safety) (← bool? ce) (← nat? cur) (← nat? ch) with
       | .nothing => "nothing" | .confirmed => "confirmed" | .failed => "failed")
   | ["watch.lndcsv", csv, ep, ch] => do
